@@ -2,7 +2,7 @@
 import os
 import re
 
-from . import e1
+from . import e1, fnslice
 from .common import REPO, VERIF
 
 H = os.path.join(VERIF, "kani/parser")
@@ -16,7 +16,32 @@ MODS = {
     "parser": ("parser/src/earley/parser.rs", "parser_h.rs", "earley::parser::verif_kani::"),
     "lexerspec": ("parser/src/earley/lexerspec.rs", "lexerspec_h.rs", "earley::lexerspec::verif_kani::"),
     "tokenparser": ("parser/src/tokenparser.rs", "tokenparser_h.rs", "tokenparser::verif_kani::"),
+    # E1c function slices: whole functions cut from the current source, re-hosted in a mock (see vlib/fnslice.py)
+    "tpproto": ("parser/src/tokenparser.rs", "tpproto_h.rs", "tokenparser::verif_proto::"),
+    "pcache": ("parser/src/earley/parser.rs", "pcache_h.rs", "earley::parser::verif_cache::"),
+    "mproto": ("parser/src/matcher.rs", "mproto_h.rs", "matcher::verif_proto::"),
+    "cproto": ("parser/src/constraint.rs", "cproto_h.rs", "constraint::verif_proto::"),
 }
+
+# functions of ParserState / Parser re-hosted in MockPS / MockP (kani/parser/pcache_h.rs)
+PCACHE_STATE_FNS = ["compute_bias", "with_items_limit", "has_pending_lexeme_bytes", "lexer_state", "num_rows", "rollback",
+                    "assert_definitive_inner", "assert_definitive", "check_lexer_bytes_invariant"]
+PCACHE_PARSER_FNS = ["invalidate_bias_cache"]
+
+# functions of Matcher re-hosted on local copies of its type definitions (kani/parser/mproto_h.rs)
+MATCHER_FNS = ["with_inner", "consume_tokens", "consume_token", "rollback", "reset", "compute_mask", "compute_mask_or_eos", "is_accepting",
+               "is_stopped", "stop_reason", "compute_ff_tokens", "consume_ff_tokens", "compute_ff_bytes", "try_consume_tokens",
+               "validate_tokens", "is_error"]
+
+# functions of Constraint re-hosted on a local copy of its struct (kani/parser/cproto_h.rs)
+CONSTRAINT_FNS = ["save_progress_and_result", "save_temperature", "force_tokens", "has_pending_stop", "compute_mask", "compute_mask_inner",
+                  "step_result", "res_commit_result", "validate_tokens_raw", "catch_unwind", "commit_token", "commit_token_inner", "tok_trie"]
+
+# functions of TokenParser re-hosted in MockTP (kani/parser/tpproto_h.rs)
+TP_FNS = ["stop_reason", "stopped", "is_accepting", "clear_caches", "stop", "tok_trie", "check_initialized", "validate_token", "reset",
+          "rollback", "validate_tokens_raw", "anyhow_error", "compute_mask_inner", "stop_for_parser_error", "apply_token",
+          "pending_grm_prefix", "has_ff_bytes", "can_force_bytes", "compute_ff_bytes_to", "compute_ff_bytes_inner", "consume_token",
+          "check_stop"]
 
 HARNESSES = {
     "grammar": dict(c05=["c05_paramref_mask_eval", "c05_paramexpr_eval", "c05_paramcond_compare", "c05_paramcond_bitcount_eq_ne", "c05_paramcond_bitcount_le_lt", "c05_paramcond_bitcount_ge_gt"], c05_fail=["c05_witness_must_fail"],
@@ -31,13 +56,49 @@ HARNESSES = {
     "parser": dict(c20=["c20_item_packing"], c13=["k13_3_forced_byte_probe"], c13_fail=["k13_3_witness_must_fail"],
                    c19=["k19_4_bias_post_s0_n0", "k19_4_bias_post_s0_n1", "k19_4_bias_post_s0_n2", "k19_4_bias_post_s1_n1"], c19_fail=["k19_4_witness_must_fail"]),
     "lexerspec": dict(c19=["k19_2_contains_token"]),
+    "pcache": dict(c11=["p11_cache_pre1_none", "p11_cache_pre0_push", "p11_cache_pre1_push_push", "p11_cache_pre1_rb1_push", "p11_cache_pre2_rb1_push",
+                        "p11_cache_pre2_rb2_push", "p11_cache_pre1_push_rb1", "p11_cache_pre1_push_rb2", "p11_cache_pre2_rb1_rb1", "p11_cache_pre1_rb1_none",
+                        "p11_start_bypasses_cache"],
+                   c11_fail=["p11_witness_must_fail"]),
+    "mproto": dict(c18=["p18m_error_is_sticky", "p18m_consume_n1", "p18m_consume_n3", "p18m_after_stop", "p01m_try_consume_n2", "p01m_try_consume_n3"],
+                   c18_fail=["mproto_witness_must_fail"]),
+    "cproto": dict(c18=["p18c_compute_mask", "p18c_after_stop", "p18c_commit"], c18_fail=["cproto_witness_must_fail"]),
+    "tpproto": dict(c12=["p12_rollback_n0_k1", "p12_rollback_n1_k1", "p12_rollback_n0_k2", "p12_rollback_n1_k2", "p12_refuse_n1", "p12_refuse_n2"],
+                    c18=["p18_stopped_is_final", "p18_check_stop_exact", "p18_eos_not_accepting", "p18_mask_protocol",
+                         "p18_out_of_range_token_fails_for_good", "p18_budget"],
+                    c01=["p01_commit_accounting"], c13=["p13_prefix_pl1", "p13_prefix_pl2"],
+                    proto_fail=["tpproto_witness_must_fail"]),
     "tokenparser": dict(c13=["k13_4_prompt_p2_g2_c0", "k13_4_prompt_p2_g2_c1", "k13_4_prompt_p2_g2_c2", "k13_4_prompt_p2_g2_c3", "k13_4_prompt_p2_g2_c4", "k13_4_prompt_p0_g2_c1",
                              "k13_4_prompt_p2_g0_c1", "k13_4_prompt_p3_g1_c2", "k13_4_prompt_p1_g3_c2", "k13_4_prompt_p0_g0_c0"], c13_fail=["k13_4_witness_must_fail"]),
 }
 
 
-class SliceError(Exception):
-    pass
+SliceError = fnslice.SliceError
+
+
+def slice_pcache_fns():
+    src = open(os.path.join(REPO, "parser/src/earley/parser.rs")).read()
+    fns = [fnslice.extract_fn(src, n, within="impl ParserState {") for n in PCACHE_STATE_FNS]
+    pf = [fnslice.extract_fn(src, n, within="impl Parser {") for n in PCACHE_PARSER_FNS]
+    return fnslice.impl_block("impl MockPS", fns) + "\n" + fnslice.impl_block("impl MockP", pf)
+
+
+def slice_matcher_fns():
+    src = open(os.path.join(REPO, "parser/src/matcher.rs")).read()
+    fns = [fnslice.extract_fn(src, n, within="impl Matcher {") for n in MATCHER_FNS]
+    return fnslice.impl_block("impl Matcher", fns)
+
+
+def slice_constraint_fns():
+    src = open(os.path.join(REPO, "parser/src/constraint.rs")).read()
+    fns = [fnslice.extract_fn(src, n, within="impl Constraint {") for n in CONSTRAINT_FNS]
+    return fnslice.impl_block("impl Constraint", fns)
+
+
+def slice_tp_fns():
+    src = open(os.path.join(REPO, "parser/src/tokenparser.rs")).read()
+    fns = [fnslice.extract_fn(src, n) for n in TP_FNS]
+    return fnslice.impl_block("impl MockTP", fns)
 
 
 def _block_after(lines, start_idx):
@@ -253,7 +314,7 @@ def prepare(tag, mods):
     try:
         for m in mods:
             rel, hf, _ = MODS[m]
-            ov.inject(rel, os.path.join(H, hf), "verif_kani")
+            ov.inject(rel, os.path.join(H, hf), MODS[m][2].split("::")[-2])
         if "ffi" in mods:
             ov.write("parser/src/verif_ffi_par_slice.rs", slice_ffi_par())
             ov.write("parser/src/verif_ffi_token_slice.rs", slice_ffi_token())
@@ -262,6 +323,14 @@ def prepare(tag, mods):
             ov.write("parser/src/earley/verif_bias_post_slice.rs", slice_bias_post())
         if "tokenparser" in mods:
             ov.write("parser/src/verif_process_prompt_slice.rs", slice_process_prompt())
+        if "pcache" in mods:
+            ov.write("parser/src/earley/verif_pcache_fns.rs", slice_pcache_fns())
+        if "mproto" in mods:
+            ov.write("parser/src/verif_matcher_fns.rs", slice_matcher_fns())
+        if "cproto" in mods:
+            ov.write("parser/src/verif_constraint_fns.rs", slice_constraint_fns())
+        if "tpproto" in mods:
+            ov.write("parser/src/verif_tp_fns.rs", slice_tp_fns())
         if "builder" in mods:
             ov.write("parser/src/verif_negated_slice.rs", slice_negated())
     except Exception:
